@@ -262,6 +262,12 @@ func c04JudgeOpt(c *fw.Ctx, m wkbMode, cfg limitCfg, in []byte, class string, de
 	c.Eval(1)
 	if cr.reads > 4*len(in)+16 {
 		c.Fail("too-many-reads", "decoding %d bytes issued %d Read calls", len(in), cr.reads)
+		return
+	}
+	if c.R.Chance(1, 4) {
+		// decoded geometries are the caller's own
+		callerScribbles(c, t)
+		callerScribbles(c, t2)
 	}
 }
 
